@@ -43,12 +43,29 @@ def sub(job, hashseed):
     return json.loads(p.stdout.strip().splitlines()[-1])
 
 
+def gen_hits(base, other, nt):
+    """the generated workload depends only on workload parameters, tick rate and seed - and does depend on the seed"""
+    rec = dict(gen='G-det-gen', params=base, params2=other, nticks=nt)
+    a = sub(dict(kind='gen', params=base, nticks=nt), 11)
+    b = sub(dict(kind='gen', params=other, nticks=nt), 12)
+    c = sub(dict(kind='gen', params=dict(base, random_seed=base['random_seed'] + 1), nticks=nt), 11)
+    d = sub(dict(kind='gen', params=dict(base, random_seed=42), nticks=nt), 11)
+    out = []
+    if a != b:
+        out.append(dict(desc=f'the generated workload differs when only scheduler/executor settings change ({base})',
+                        signature='workload-dependence', recipe=rec, gen='G-det-gen'))
+    if a == c and len(a) >= 12:
+        out.append(dict(desc=f'seeds {base["random_seed"]} and {base["random_seed"] + 1} give the same workload',
+                        signature='seed-ignored', recipe=rec, gen='G-det-gen'))
+    if a == d and len(a) >= 12 and base['random_seed'] != 42:
+        out.append(dict(desc=f'seed {base["random_seed"]} gives the same workload as the default seed 42',
+                        signature='seed-ignored', recipe=rec, gen='G-det-gen'))
+    return out, len(a)
+
+
 def replay(recipe):
     if recipe.get('gen') == 'G-det-gen':
-        a = sub(dict(kind='gen', params=recipe['params'], nticks=recipe['nticks']), 3)
-        b = sub(dict(kind='gen', params=recipe['params2'], nticks=recipe['nticks']), 4)
-        hits = [] if a == b else [dict(desc='generated workload depends on scheduler/executor settings', signature='workload-dependence', recipe=recipe)]
-        return None, hits
+        return None, gen_hits(recipe['params'], recipe['params2'], recipe['nticks'])[0]
     case, run = S.drive(recipe, MASK)
     return case, variants(recipe, case)
 
@@ -102,26 +119,16 @@ def run(ctx):
 
     def gen_check(i):
         rng = ctx.case_rng('G-det-gen', i)
-        base = dict(random_seed=rng.randrange(10 ** 6), ticks_per_second=rng.choice([1, 10, 100]),
+        # boundary seeds first (0 is a legitimate seed; 42 is the documented default), then random ones
+        seed0 = [0, 1, 41, 2 ** 32 - 1][i] if i < 4 else rng.randrange(10 ** 6)
+        base = dict(random_seed=seed0, ticks_per_second=rng.choice([1, 10, 100]),
                     waiting_seconds_mean=rng.choice([0.5, 2.0, 5.0]), num_pipelines=rng.choice([1, 3, 4]),
                     num_operators=rng.choice([1, 3, 5]), cpu_io_ratio=rng.choice([0.0, 0.5, 1.0]))
         other = dict(base, scheduler_algo=rng.choice(['naive', 'priority-pool', 'overbook']), num_pools=rng.choice([1, 2, 5]),
                      cpus_per_pool=rng.choice([1, 8]), ram_gb_per_pool=rng.choice([4, 64]), duration=rng.choice([1, 77]),
                      multi_operator_containers=False, allow_memory_overcommit=True)
-        nt = int(min(6000, max(60, 10 * base['waiting_seconds_mean'] * base['ticks_per_second'])))
-        a = sub(dict(kind='gen', params=base, nticks=nt), 11)
-        b = sub(dict(kind='gen', params=other, nticks=nt), 12)
-        c = sub(dict(kind='gen', params=dict(base, random_seed=base['random_seed'] + 1), nticks=nt), 11)
-        out = []
-        if a != b:
-            out.append(dict(desc=f'the generated workload differs when only scheduler/executor settings change ({base})',
-                            signature='workload-dependence', recipe=dict(gen='G-det-gen', params=base, params2=other, nticks=nt),
-                            gen='G-det-gen'))
-        if a == c and len(a) >= 12:
-            out.append(dict(desc=f'seeds {base["random_seed"]} and {base["random_seed"] + 1} give the same workload',
-                            signature='seed-ignored', recipe=dict(gen='G-det-gen', params=base, params2=other, nticks=nt),
-                            gen='G-det-gen'))
-        return out, len(a)
+        nt = int(min(12000, max(60, 25 * base['waiting_seconds_mean'] * base['ticks_per_second'])))
+        return gen_hits(base, other, nt)
     with ThreadPoolExecutor(8) as ex:
         for h, na in ex.map(gen_check, range(ngen)):
             hits += h
